@@ -123,10 +123,10 @@ class Registry:
         from .strings import uf as _uf
 
         self.spec_natives["is_ascii"] = lambda it, a, k: VBool(_uf("is_ascii", STR, BOOL)((a[0].val if isinstance(a[0], VOpt) else a[0]).t))
-        self.spec_natives["effect_names"] = lambda it, a, k: VList(items=[VStr(z3.StringVal(e[0])) for e in it.path.effects])
+        self.spec_natives["effect_names"] = lambda it, a, k: VList(items=[VStr(z3.StringVal(e[0])) for e in it.path.effects if e[0] != "Fs"])
         def _effect_arg(it, a, k):
             i, j = vals.concrete_int(a[0]), vals.concrete_int(a[1])
-            effs = it.path.effects
+            effs = [e for e in it.path.effects if e[0] != "Fs"]
             if i is None or j is None or i >= len(effs) or j >= len(effs[i]):
                 return NONE
             return effs[i][j]
